@@ -24,7 +24,10 @@ RULE = (
     "stage + transfer v1, rewrite 1-2 files (in place same length with mtime T+0.6 s in the same integer "
     "second / T+2.1 s / atomic replace / resize; mtimes set by os.utime(ns=), no wall clock), stage v2 with "
     "the same State into the same odb, transfer, object-level checkout and index-level round trip must "
-    "equal the CURRENT source. "
+    "equal the CURRENT source; half of these histories move contents between paths (P rewritten, a new "
+    "path Q holds P's former bytes) and/or delete all / the moved objects from the store and re-create the "
+    "odb object on the same store path between the two builds (one process, same store location); the store "
+    "oracle re-hashes every object. "
     "Oracle-only stream: trees with 2-4 files above the 1 MiB large-file threshold (thread-pool hashing). "
     "A case is non-trivial when the tree has >= 2 files in >= 2 directories or exercises an error."
 )
@@ -191,6 +194,13 @@ class Env:
         if self.state is not None:
             kw["state"] = self.state
         return path, impl.make_odb(self.cls, path, **kw)
+
+    def reopen(self, path):
+        """a new odb object on a store location that was used before"""
+        kw = {"type": [self.link]}
+        if self.state is not None:
+            kw["state"] = self.state
+        return impl.make_odb(self.cls, path, **kw)
 
     def out(self):
         self._n += 1
@@ -411,14 +421,43 @@ def restage_case(ctx, case, items_restage):
         odb_path, odb = env.odb()
         staging, _m1, obj1 = build(odb, src, localfs, "md5")
         transfer(staging, odb, {obj1.hash_info}, shallow=False)
+        v1_store = impl.walk_store(odb_path)
         v2 = dict(files)
         nonempty = sorted(r for r, b in files.items() if b)
+        moved_oids = set()
         for i, variant in case["restage"]["edits"]:
             rel = nonempty[i % len(nonempty)]
             if v2[rel] != files[rel]:
                 continue                 # already rewritten by an earlier edit of this case
-            v2[rel] = apply_edit(src, rel, files[rel], variant)
+            if variant == "move":
+                # the content moves: P gets other bytes, a new path Q next to it holds P's former bytes
+                q = (rel.rsplit("/", 1)[0] + "/" if "/" in rel else "") + f"moved-{i}"
+                if q in v2 or q in case["dirs"]:
+                    continue
+                v2[rel] = apply_edit(src, rel, files[rel], "plus2")
+                qp = os.path.join(src, *q.split("/"))
+                with open(qp, "wb") as f:
+                    f.write(files[rel])
+                set_mtime(qp, T0, 100_000_000)
+                v2[q] = files[rel]
+                moved_oids.add(impl.md5hex(files[rel]))
+            else:
+                v2[rel] = apply_edit(src, rel, files[rel], variant)
             ctx.count("restage-edit:" + variant)
+        # between the two builds: objects vanish from the store and a new odb object is made on the path
+        wipe = case["restage"].get("wipe")
+        gone = []
+        if wipe == "all":
+            gone = sorted(v1_store)
+        elif wipe == "moved":
+            gone = sorted(moved_oids & set(v1_store))
+        for oid in gone:
+            op = os.path.join(odb_path, oid[:2], oid[2:])
+            os.chmod(op, 0o644)
+            os.unlink(op)
+        if wipe:
+            odb = env.reopen(odb_path)
+            ctx.count("restage-wipe:" + wipe)
         walk2 = observe_walk(src)
         assert impl.walk_files(src) == v2
         staging, meta, obj = build(odb, src, localfs, "md5")
@@ -453,10 +492,15 @@ def restage_case(ctx, case, items_restage):
         ctx.oracle_fail("C02:restage-meta", f"re-staging: Meta {md} does not match the current source", one)
     if res.failed:
         ctx.count("restage:transfer-reported-failure")
+    for oid, (data, _mode) in list(store.items()) + list(iobs["store"].items()):
+        if impl.md5hex(data) != (oid[:-4] if oid.endswith(".dir") else oid):
+            ctx.oracle_fail("C02:restage-store-name",
+                            f"re-staging: the store holds under {oid} bytes that do not hash to that name", one)
     exp = vL([vN(1), vB(obj1.hash_info.value), vB(obj.hash_info.value), vN(md.get("nfiles", 0)), vN(md.get("size", 0)),
               v_keyhash([(k, h) for k, _m, h in tree_entries(obj)]), v_store(store),
               vL([vN(1), vL([v_fsmap(out_files), v_dirs(out_dirs)])])])
-    items_restage.append((one, cpair(cbytes(src), cpair(walk_term(walk1), walk_term(walk2))), exp))
+    items_restage.append((one, cpair(cpair(cbytes(src), clist([cbytes(g) for g in gone])),
+                                     cpair(walk_term(walk1), walk_term(walk2))), exp))
     ctx.case(case, True)
 
 
@@ -818,16 +862,30 @@ def run(ctx):
     restage_cases = [
         {"files": {"params.txt": b"rate=0.10\n".hex(), "d/x": "00010203", "d/y": "00010203", "e": ""}, "dirs": ["d", "g"],
          "restage": {"config": ["local", "copy", True], "edits": [[2, "same_second"]]}},
+        # the content of d/x moves to d/moved-0 while d/x gets other bytes; the store was wiped in between
+        {"files": {"a": "6161", "d/x": "00010203", "d/z": "7a"}, "dirs": ["d"],
+         "restage": {"config": ["local", "copy", False], "edits": [[1, "move"]], "wipe": "all"}},
+        {"files": {"a": "6161", "d/x": "00010203", "d/z": "7a"}, "dirs": ["d"],
+         "restage": {"config": ["base", "hardlink", True], "edits": [[1, "move"], [0, "move"]], "wipe": "moved"}},
     ]
-    for i in range(ctx.n(8, 40)):
+    for i in range(ctx.n(12, 48)):
         files, dirs = gen_tree(ctx.rng, 3, 8, 2)
         if not any(files.values()):
             continue
         cfg = list(ctx.rng.choice([c for c in CONFIGS if c[2]] if ctx.rng.random() < 0.8 else CONFIGS))
-        edits = [[ctx.rng.randint(0, 30), ctx.rng.choice(["same_second", "same_second", "plus2", "replace", "resize"])]
-                 for _ in range(ctx.rng.randint(1, 2))]
+        if i % 2 == 0:
+            edits = [[ctx.rng.randint(0, 30), ctx.rng.choice(["same_second", "same_second", "plus2", "replace", "resize"])]
+                     for _ in range(ctx.rng.randint(1, 2))]
+            wipe = ctx.rng.choice([None, None, "all"])
+        else:
+            # contents move between paths; the store lost (at least) the moved objects in between
+            edits = [[ctx.rng.randint(0, 30), "move"] for _ in range(ctx.rng.randint(1, 2))]
+            if ctx.rng.random() < 0.3:
+                edits.append([ctx.rng.randint(0, 30), "same_second"])
+            cfg = list(ctx.rng.choice(CONFIGS))
+            wipe = ctx.rng.choice(["all", "moved", "moved", None])
         restage_cases.append({"files": {r: b.hex() for r, b in files.items()}, "dirs": dirs,
-                              "restage": {"config": cfg, "edits": edits}})
+                              "restage": {"config": cfg, "edits": edits, "wipe": wipe}})
     for case in restage_cases:
         restage_case(ctx, case, items_restage)
     ctx.obligation("oracle:roundtrip", not any(v.kind == "oracle" for v in ctx.violations),
@@ -839,8 +897,8 @@ def run(ctx):
          "fun i => checkout_without (fst (fst i)) (snd (fst i)) (snd i)", items_bad, 12),
         ("history", "(list N * walk) * (N * list (list N))",
          "fun i => obj_roundtrip_hist (fst (fst i)) (snd (fst i)) (fst (snd i)) (snd (snd i))", items_hist, 10),
-        ("restage", "list N * (walk * walk)",
-         "fun i => restage_val (fst i) (fst (snd i)) (snd (snd i))", items_restage, 10),
+        ("restage", "(list N * list (list N)) * (walk * walk)",
+         "fun i => restage_val (fst (fst i)) (fst (snd i)) (snd (snd i)) (snd (fst i))", items_restage, 10),
         ("file", "list N", "file_roundtrip", items_file, 40),
     ]
     # the six evaluations are independent coqc runs over distinct case files: run them side by side,
